@@ -42,6 +42,7 @@ func init() {
 type filtLevel struct {
 	Inc, Exc, Follow []string
 	MapDrop          bool
+	MapRewrite       bool
 }
 
 func c11Drop(salt uint64, p string) bool {
@@ -112,6 +113,7 @@ func c11Run(c *core.Ctx) *core.Result {
 		return r
 	}
 	mapDropped := map[string]bool{}
+	mapRewrite := false
 	nlevels := R.Weighted([]int{6, 3, 1}) + 1
 	var levels []filtLevel
 	var view fsutil.FS = base
@@ -160,6 +162,23 @@ func c11Run(c *core.Ctx) *core.Result {
 				}
 				return fsutil.MapResultKeep
 			}
+		}
+		if core.NewRand(core.Mix(c.Seed, "C11-map-rewrite", c.Index*8+l)).P(1, 4) {
+			// a map function that rewrites owner and time stamp of every
+			// entry it is shown (what a build-context sender does): the
+			// filtered view carries the rewritten stats, also for directories
+			// that are only reported because a descendant is selected
+			lv.MapRewrite = true
+			mapRewrite = true
+			inner := opt.Map
+			opt.Map = func(p string, st *types.Stat) fsutil.MapResult {
+				st.Uid, st.Gid, st.ModTime = 4242, 4243, 1e18+7
+				if inner != nil {
+					return inner(p, st)
+				}
+				return fsutil.MapResultKeep
+			}
+			r.Count("levels_with_rewriting_map", 1)
 		}
 		inc := lv.Inc
 		if lv.Follow != nil {
@@ -250,6 +269,11 @@ func c11Run(c *core.Ctx) *core.Result {
 			}
 		}
 		regroup(v)
+		if mapRewrite {
+			for i := range v.Entries {
+				v.Entries[i].UID, v.Entries[i].GID, v.Entries[i].Mtime = 4242, 4243, 1e18+7
+			}
+		}
 		if pfx != "" {
 			v = &tree.Tree{Entries: prefixed(v.Entries, "sub", tree.Entry{Path: "sub", Type: tree.Dir, Perm: 0755, Mtime: 77})}
 			for i := range v.Entries {
